@@ -12,9 +12,6 @@
 package main
 
 import (
-	"time"
-	"runtime"
-	"strconv"
 	"encoding/json"
 	"flag"
 	"fmt"
